@@ -108,6 +108,17 @@ func compareResolved(got shared.Elements, want map[string]*big.Rat) string {
 	return ""
 }
 
+// c01Earlier: books resolved right before the book under test, in the same process (same recipe and element names,
+// other shapes and amounts; one is cyclic, one is over its limit)
+var c01Earlier = []struct {
+	book absBook
+	n    int
+}{
+	{absBook{{"r0", []absIng{{"r1", 3}, {"x", 1}, {"y", -1}}}, {"r1", []absIng{{"r2", 2}, {"y", 4}}}, {"r2", []absIng{{"x", 7}, {"y", 0.5}}}}, 10},
+	{absBook{{"r0", []absIng{{"r1", 1}}}, {"r1", []absIng{{"r0", 1}, {"x", 1}}}, {"r2", []absIng{{"y", 1}}}}, 10},
+	{absBook{{"r2", []absIng{{"r1", 5}}}, {"r1", []absIng{{"r0", 5}}}, {"r0", []absIng{{"x", 5}}}}, 2},
+}
+
 func checkC01(w *Worker) {
 	k, L := 3, 2
 	coefs := []float64{1, -2} // the multiplicative identity and a negative non-unit
@@ -117,7 +128,9 @@ func checkC01(w *Worker) {
 		coefs = []float64{1, -2, 0} // (four coefficients with two depth limits: ~10^9 executions, beyond the deadline)
 	}
 	leaves := []string{"x", "y"}
+	earlierCalls := false
 	body := func(k, L int, coefs []float64) func(x *Exec) {
+		earlierCalls := earlierCalls
 		return func(x *Exec) {
 			naming := x.Choose(2, "input:naming")
 			api := x.Choose(2, "input:api")
@@ -150,6 +163,18 @@ func checkC01(w *Worker) {
 			}
 			want := refResolve(book)
 			db := book.toDB()
+			if earlierCalls {
+				// an earlier call in the same process, on another book that shares the recipe names: it must leave nothing behind
+				pi := x.Choose(len(c01Earlier), "event:earlier-call")
+				func() {
+					defer func() {
+						if r := recover(); r != nil {
+							rethrowSentinel(r)
+						}
+					}()
+					resolveVia(api, c01Earlier[pi].book.toDB(), c01Earlier[pi].n)
+				}()
+			}
 			visits := installMapOrder(x, "env:maporder")
 			var err error
 			func() {
@@ -374,6 +399,10 @@ func checkC01(w *Worker) {
 			}
 		}
 	})
+	earlierCalls = true
+	w.Explore("dag-k3-L1-after-an-earlier-call", ExploreOpts{ShardDepth: 4, Budgets: map[string]int{"env:maporder2": 0}}, body(3, 1, []float64{1, -2}))
+	w.Explore("dag-k2-L2-after-an-earlier-call", ExploreOpts{ShardDepth: 4, Budgets: map[string]int{"env:maporder2": 0}}, body(2, 2, []float64{1, -2}))
+	earlierCalls = false
 	w.Explore(fmt.Sprintf("dag-k%d-L%d", k, L), ExploreOpts{ShardDepth: 4, Budgets: budgets}, body(k, L, coefs))
 	if w.Tier == "thorough" {
 		w.Explore("dag-k4-L1", ExploreOpts{ShardDepth: 4, Budgets: map[string]int{"env:maporder2": 0}}, body(4, 1, []float64{1, -2}))
